@@ -162,26 +162,28 @@ pub fn long_sub<E: Engine>(cases: (usize, usize)) -> Sub {
         &format!("{}/honest-long-mixed-batches", E::NAME),
         crate::runner::no_fixed,
         cases,
-        |_: &RunCtx, _: Option<&()>| {
-            (
-                0u8..4,
-                1usize..=6,
-                prop::collection::vec(crate::props::c03::pool_member_valid(), 2..=5),
-                prop_oneof![1 => 2u16..=40, 2 => 250u16..=270, 2 => 500u16..=530, 1 => 271u16..=700],
-                any::<u64>(),
-                0u8..3,
-            )
-                .prop_map(|(bits_idx, ext, pool, k, order, mode)| LongSpec {
-                    bits_idx,
-                    ext,
-                    pool,
-                    k,
-                    order,
-                    mode,
-                })
-        },
+        |_: &RunCtx, _: Option<&()>| long_strategy(),
         long_oracle::<E>,
     )
+}
+
+pub fn long_strategy() -> impl Strategy<Value = LongSpec> {
+    (
+        0u8..4,
+        1usize..=6,
+        prop::collection::vec(crate::props::c03::pool_member_valid(), 2..=5),
+        prop_oneof![1 => 2u16..=40, 2 => 250u16..=270, 2 => 500u16..=530, 1 => 271u16..=700],
+        any::<u64>(),
+        0u8..3,
+    )
+        .prop_map(|(bits_idx, ext, pool, k, order, mode)| LongSpec {
+            bits_idx,
+            ext,
+            pool,
+            k,
+            order,
+            mode,
+        })
 }
 
 pub fn def() -> PropertyDef {
